@@ -144,11 +144,24 @@ func ZZ_C02_Vote() {
 	}
 	// C03: consecutive claims per validator, no second vote for a nonce
 	after := k.ZZGetLastEventNonceByValidator(ctx, chain, vs[who].Oper)
-	vrt.Assert("c03.validator-nonce-stored", after == ev.GetEventNonce())
+	vrt.Check("c03.validator-nonce-stored", after == ev.GetEventNonce())
 	if hadStored && before != 0 {
-		vrt.Assert("c03.validator-consecutive", ev.GetEventNonce() == before+1)
+		vrt.Check("c03.validator-consecutive", ev.GetEventNonce() == before+1)
 	}
-	vrt.Assert("c03.no-second-vote-for-a-nonce", !(who >= 0 && voted[who] && ev.GetEventNonce() == N))
+	vrt.Check("c03.no-second-vote-for-a-nonce", !(who >= 0 && voted[who] && ev.GetEventNonce() == N))
+	// the same validator cannot add its power a second time by repeating the claim
+	var err2 error
+	p2 := vrt.Panics(func() { _, err2 = srv.SubmitExternalEvent(sdk.WrapSDKContext(ctx), msg) })
+	rec2 := k.GetExternalEventVoteRecord(ctx, chain, ev.GetEventNonce(), ev.Hash())
+	cnt2 := 0
+	if rec2 != nil {
+		for _, v := range rec2.Votes {
+			if v == me {
+				cnt2++
+			}
+		}
+	}
+	vrt.Check("c02.vote.repeated-claim-not-counted-twice", (p2 || err2 != nil) && cnt2 == 1)
 }
 
 // ZZ_C02_Tally: the real eventVoteRecordTally on records with arbitrary vote sets; powers are those at tally time.
